@@ -321,6 +321,8 @@ class DtypeDefinition:
         self.bitlength2chars_fn = bitlength2chars_fn
 
     def get_dtype(self, length: Optional[int] = None, scale: Union[None, float, int] = None) -> Dtype:
+        if length is not None and length < 0:
+            raise ValueError(f"A negative length ({length}) was supplied for the '{self.name}' dtype.")
         if self.allowed_lengths:
             if length is None:
                 if self.allowed_lengths.only_one_value():
